@@ -443,7 +443,7 @@ class Interp:
             raise PathEnd("footprint")
         if name == "omp_get_thread_num": return s.cur_tid
         if name == "omp_get_num_threads": return s.num_threads
-        if name in ("llvm.dbg.declare", "llvm.dbg.value", "llvm.lifetime.start.p0i8", "llvm.lifetime.end.p0i8"): return None
+        if name in ("llvm.dbg.declare", "llvm.dbg.value", "llvm.dbg.label", "llvm.lifetime.start.p0i8", "llvm.lifetime.end.p0i8", "my_get_time"): return None
         raise NotImplementedError("call " + name)
     # ---- execution
     def call(s, fname, args, depth=0):
